@@ -219,7 +219,10 @@ func Check(rec *Record) []Finding {
 					add("C07", "unexpected-command", fmt.Sprintf("attempt %d: unexpected command %s in %v", i, c, log.Cmds))
 				}
 			}
-			if stage < 2 && !preFails(sc.Attempts[i].Plan.Pre) && ar.Returned {
+			pre := sc.Attempts[i].Plan.Pre
+			// when the master goes away right after answering the SET query the
+			// client's dump request may fail in the write and never arrive
+			if stage < 2 && !preFails(pre) && pre != "fin_after_query" && pre != "rst_after_query" && ar.Returned {
 				add("C07", "no-dump", fmt.Sprintf("attempt %d: no dump request was issued (%v)", i, log.Cmds))
 			}
 		}
@@ -314,7 +317,7 @@ func parkedOn(s string) string {
 
 func preFails(pre string) bool {
 	switch pre {
-	case "err_greeting", "fin_after_greeting", "err_auth", "err_query":
+	case "err_greeting", "fin_after_greeting", "err_auth", "err_query", "fin_after_auth":
 		return true
 	}
 	return false
